@@ -1218,7 +1218,121 @@ fn gen_step(rng: &mut Rng) -> u64 {
     }
 }
 
+// ---------------------------------------------------------------------------------------------
+// what the signer may take as "known to be segwit" when the transaction arrives over the protocol
+// ---------------------------------------------------------------------------------------------
+
+/// Over the protocol (SignWithdrawal, SignHtlcTxMingle) the per-input segwit flags that `check_onchain_tx`
+/// relies on are not sent by the node: the signer derives them while decoding the PSBT, from the input
+/// transactions streamed along.  A flag may only be set for an input whose transaction was supplied
+/// (`non_witness_utxo`, hashing to the spent txid) and whose spent output is a witness program; the
+/// `witness_utxo` field is the node's unauthenticated claim.  Ground truth is how the PSBT was built here.
+fn psbt_segwit_probe(rng: &mut Rng, r: &mut Report, shard: usize, h: u64, seed: u64) {
+    use lightning_signer::bitcoin::consensus::deserialize;
+    use lightning_signer::bitcoin::psbt::Psbt;
+    use vls_protocol::psbt::StreamedPSBT;
+    let secp = Secp256k1::new();
+    for k in 0..6u64 {
+        let n_in = 1 + rng.usize(3);
+        let mut inputs = vec![];
+        // (supplied input tx?, the spent output is a witness program?, claimed witness_utxo?)
+        let mut truth: Vec<(bool, bool, bool)> = vec![];
+        let mut in_txs: Vec<Option<Transaction>> = vec![];
+        let mut claims: Vec<Option<TxOut>> = vec![];
+        for i in 0..n_in {
+            let pk = rand_pubkey(rng, &secp);
+            let segwit_out = rng.chance(2, 3);
+            let kind = if segwit_out { *rng.pick(&["p2wpkh", "p2tr"]) } else { *rng.pick(&["p2pkh", "p2sh-p2wpkh"]) };
+            let spk = key_script(&secp, &pk, kind, Network::Regtest);
+            let spent = TxOut { value: Amount::from_sat(100_000 + rng.below(5_000_000)), script_pubkey: spk };
+            // the input transaction: the spent output sits at a random index among decoys of the other kind
+            let vout = rng.usize(3);
+            let mut outs = vec![];
+            for j in 0..3 {
+                if j == vout {
+                    outs.push(spent.clone());
+                } else {
+                    let pk2 = rand_pubkey(rng, &secp);
+                    let other_kind = if segwit_out { "p2pkh" } else { "p2wpkh" };
+                    outs.push(TxOut { value: Amount::from_sat(50_000 + rng.below(1000)), script_pubkey: key_script(&secp, &pk2, other_kind, Network::Regtest) });
+                }
+            }
+            let in_tx = Transaction {
+                version: Version::TWO,
+                lock_time: LockTime::ZERO,
+                input: vec![TxIn { previous_output: OutPoint { txid: Txid::from_byte_array(rng.bytes::<32>()), vout: i as u32 }, script_sig: ScriptBuf::new(), sequence: Sequence::MAX, witness: Witness::default() }],
+                output: outs,
+            };
+            let supply_tx = rng.chance(1, 2);
+            // what the node claims in witness_utxo: the true output, or (only without the transaction, where
+            // nothing can contradict it) a made-up segwit output
+            let claim = match rng.below(3) {
+                0 => None,
+                1 => Some(spent.clone()),
+                _ => {
+                    if supply_tx {
+                        Some(spent.clone())
+                    } else {
+                        let pk3 = rand_pubkey(rng, &secp);
+                        Some(TxOut { value: spent.value, script_pubkey: key_script(&secp, &pk3, "p2wpkh", Network::Regtest) })
+                    }
+                }
+            };
+            inputs.push(TxIn { previous_output: OutPoint { txid: in_tx.compute_txid(), vout: vout as u32 }, script_sig: ScriptBuf::new(), sequence: Sequence::MAX, witness: Witness::default() });
+            truth.push((supply_tx, segwit_out, claim.is_some()));
+            in_txs.push(if supply_tx { Some(in_tx) } else { None });
+            claims.push(claim);
+        }
+        let pk_out = rand_pubkey(rng, &secp);
+        let tx = Transaction {
+            version: Version::TWO,
+            lock_time: LockTime::ZERO,
+            input: inputs,
+            output: vec![TxOut { value: Amount::from_sat(90_000), script_pubkey: key_script(&secp, &pk_out, "p2wpkh", Network::Regtest) }],
+        };
+        let mut psbt = match Psbt::from_unsigned_tx(tx.clone()) {
+            Ok(p) => p,
+            Err(_) => continue,
+        };
+        for i in 0..n_in {
+            psbt.inputs[i].non_witness_utxo = in_txs[i].clone();
+            psbt.inputs[i].witness_utxo = claims[i].clone();
+        }
+        let bytes = psbt.serialize();
+        r.count("psbt_probe.psbts");
+        let decoded: Result<Result<StreamedPSBT, _>, String> = report::catch(|| deserialize::<StreamedPSBT>(&bytes));
+        match decoded {
+            Ok(Ok(sp)) => {
+                if sp.segwit_flags.len() != n_in {
+                    r.violation("c08:psbt-segwit-flags-do-not-cover-every-input", json!({"replay": {"seed": seed, "shard": shard, "history": h, "psbt": k}, "inputs": n_in, "flags": sp.segwit_flags}));
+                    continue;
+                }
+                for i in 0..n_in {
+                    let (supplied, segwit, claimed) = truth[i];
+                    r.count(&format!("psbt_probe.input.tx_supplied={}.segwit_output={}.witness_utxo_claimed={}.flag={}", supplied, segwit, claimed, sp.segwit_flags[i]));
+                    r.distinct_str(&format!("psbt-probe|{}|{}|{}|{}", supplied, segwit, claimed, sp.segwit_flags[i]));
+                    if sp.segwit_flags[i] && !(supplied && segwit) {
+                        let sig = if !supplied { "c08:input-taken-as-segwit-without-its-transaction" } else { "c08:non-segwit-input-taken-as-segwit" };
+                        r.violation(sig, json!({"replay": {"seed": seed, "shard": shard, "history": h, "psbt": k}, "input": i,
+                            "input_transaction_supplied": supplied, "spent_output_is_witness_program": segwit, "witness_utxo_claimed": claimed,
+                            "spent_vout": tx.input[i].previous_output.vout, "decoded_flags": sp.segwit_flags, "psbt_hex": hex::encode(&bytes)}));
+                    }
+                }
+            }
+            Ok(Err(e)) => {
+                r.count("psbt_probe.decode_refused");
+                r.set_add("psbt_probe_refusals", &format!("{:?}", e).chars().take(80).collect::<String>());
+            }
+            Err(p) => {
+                r.count("psbt_probe.decode_panicked");
+                r.set_add("panics", &p.chars().take(160).collect::<String>());
+            }
+        }
+    }
+}
+
 fn history(rng: &mut Rng, r: &mut Report, shard: usize, h: u64, steps: u64, seed: u64) {
+    psbt_segwit_probe(rng, r, shard, h, seed);
     let mut ctx = new_ctx(rng);
     r.count(&format!("worlds.velocity.{}", ctx.vel_name));
     r.count(&format!("worlds.style.{}", if ctx.native { "native" } else { "ldk" }));
